@@ -705,6 +705,19 @@ def agree_case(item):
                 if v >= 1 << (8 * nb) and version == (3, 4):
                     continue
                 refused(lab, enc(v), ok)
+            # encoding of the shared secret: RFC 5246 8.1.2 strips leading
+            # zero bytes, RFC 8446 7.4.1 pads to the length of the prime
+            for z in (5, 1 << 8 * (nb - 2), (1 << 8 * (nb - 1)) - 1,
+                      1 << 8 * (nb - 1), p - 2):
+                try:
+                    got = bytes(kex.calc_shared_key(1, enc(z)))
+                except BaseException as e:  # noqa
+                    got = "raised %s" % type(e).__name__
+                want = z.to_bytes((z.bit_length() + 7) // 8, "big") \
+                    if version < (3, 4) else z.to_bytes(nb, "big")
+                expect("secret-encoding-z~2^%d/%d.%d" % (
+                    z.bit_length() - 1, version[0], version[1]),
+                    got == want, True)
             if version == (3, 4):
                 refused("peer-short", numberToByteArray(2, nb - 1))
                 refused("peer-long", numberToByteArray(2, nb + 1))
